@@ -100,6 +100,9 @@ theorem processMemory_memTok (m : MemA) (hm : MemOk m) : processMemory (memTok m
   | .off (.int i), _ =>
     simp only [processMemory, memTok, hmm, midTok, memOffsetOf, pyInt0_int, memScaleOf, memIndexOf, hbase] at hpost hprev ⊢
     simp [hpost, hprev, expectMem, hmm, A64.defaultScale]
+  | .off (.ident i), _ =>
+    simp only [processMemory, memTok, hmm, midTok, memOffsetOf, memScaleOf, memIndexOf, hbase] at hpost hprev ⊢
+    simp [hpost, hprev, expectMem, hmm, A64.defaultScale, identTok, expectIdent]
   | .idx r s, hi =>
     obtain ⟨hr, hs⟩ := hi
     have hidx := memRegOf_memreg r hr (idxTok r (toW s)) rfl rfl
@@ -133,7 +136,7 @@ theorem covered_mem (fst : Bool) (m : MemA) (hm : MemOk m) : CoveredOp true fst 
     have := goodOp_mem m hm gs hgs
     cases fst with
     | true => exact this.toFirst
-    | false => exact this.notFirst
+    | false => exact this.toRest
   · simp [processOperand, processMemory_memTok m hm, expectOp]
 
 end OsacaVerif.ParseA64
